@@ -117,10 +117,14 @@ class LineBox(WidgetDecoration[WrappedWidget], delegate_to_widget_mixin("_wrappe
         if tline:
             if title_align not in {Align.LEFT, Align.CENTER, Align.RIGHT}:
                 raise ValueError('title_align must be one of "left", "right", or "center"')
+            # an empty title gets a column of width 0 rather than a content-sized one: a Columns
+            # canvas with a hidden content-sized column depends on a widget that is never rendered
+            # and so cannot be cached
+            title_column = (WHSettings.PACK if title else 0, self.title_widget)
             if title_align == Align.LEFT:
-                tline_widgets = [(WHSettings.PACK, self.title_widget), w_tline]
+                tline_widgets = [title_column, w_tline]
             else:
-                tline_widgets = [w_tline, (WHSettings.PACK, self.title_widget)]
+                tline_widgets = [w_tline, title_column]
                 if title_align == Align.CENTER:
                     tline_widgets.append(w_tline)
 
@@ -194,6 +198,10 @@ class LineBox(WidgetDecoration[WrappedWidget], delegate_to_widget_mixin("_wrappe
         if not self.tline_widget:
             raise ValueError("Cannot set title when tline is unset")
         self.title_widget.set_text(self.format_title(text))
+        options = self.tline_widget.options(WHSettings.PACK) if text else self.tline_widget.options(WHSettings.GIVEN, 0)
+        for i, (w, _options) in enumerate(self.tline_widget.contents):
+            if w is self.title_widget:
+                self.tline_widget.contents[i] = (w, options)
         self.tline_widget._invalidate()
 
     @property
